@@ -114,33 +114,35 @@ func ignoringLabels(expr string) []string {
 	return out
 }
 
-// extraIgnoredLabels: after deleting the ignoring(...) labels from the server's label sets the two answers are equal,
-// and at least one server series carried such a label
+// extraIgnoredLabels: the answers are equal after deleting the ignoring(...) labels from the server's label sets and
+// the metric name from upstream's (today's code treats __name__ as an ignored label and keeps the last listed one);
+// at least one label set must have differed
 func extraIgnoredLabels(up, sv result, ign []string) bool {
 	if len(ign) == 0 || sv.Err != "" || up.Kind != sv.Kind {
 		return false
 	}
-	hit := false
-	st := result{Kind: sv.Kind}
-	for _, s := range sv.Series {
-		lb := map[string]string{}
-		for k, v := range s.Labels {
-			drop := false
-			for _, g := range ign {
-				if g == k {
-					drop = true
+	strip := func(r result, names []string) result {
+		st := result{Kind: r.Kind}
+		for _, s := range r.Series {
+			lb := map[string]string{}
+			for k, v := range s.Labels {
+				drop := false
+				for _, g := range names {
+					if g == k {
+						drop = true
+					}
+				}
+				if !drop {
+					lb[k] = v
 				}
 			}
-			if drop {
-				hit = true
-				continue
-			}
-			lb[k] = v
+			st.Series = append(st.Series, rseries{Labels: lb, Pts: s.Pts})
 		}
-		st.Series = append(st.Series, rseries{Labels: lb, Pts: s.Pts})
+		st.canon()
+		return st
 	}
-	st.canon()
-	return hit && cmpResults(up, st) == ""
+	names := append([]string{"__name__"}, ign...)
+	return cmpResults(up, sv) != "" && cmpResults(strip(up, names), strip(sv, names)) == ""
 }
 
 // emptyAnswer: no series at all
